@@ -12,3 +12,4 @@ Definition consumer_completing : list istate := [Cnclld; CnclldMan; Fail].
 Definition consumer_nonfinal : list istate := [Wait; Start].
 Definition consumer_keeps_early_parts : bool := true.
 Definition txid_under_lock : bool := true.
+Definition consumer_state_under_lock : bool := true.
